@@ -772,7 +772,7 @@ func validateFieldMapping(predecessorType reflect.Type, successorType reflect.Ty
 		return nil, nil
 	}
 
-	checker := func(value any) (any, error) {
+	checker := func(value any) (map[string]any, error) {
 		mValue := value.(map[string]any)
 		var err error
 		for k, v := range fieldCheckers {
@@ -788,7 +788,11 @@ func validateFieldMapping(predecessorType reflect.Type, successorType reflect.Ty
 		return mValue, nil
 	}
 	return &handlerPair{
-		invoke: checker,
+		invoke: func(value any) (any, error) {
+			return checker(value)
+		},
+		// the checked stream must keep the chunk type map[string]any: it is merged with the streams of
+		// other predecessors and consumed by the field mapping converter of the successor
 		transform: func(input streamReader) streamReader {
 			return packStreamReader(schema.StreamReaderWithConvert(input.toAnyStreamReader(), checker))
 		},
